@@ -1,4 +1,5 @@
 import Votca.Model.C11
+import Votca.Gen.XmlEscape
 /-! line-protocol handlers for C11 (core only) -/
 namespace Driver.C11
 open Votca Votca.C11 Votca.C11.PTree Votca.C18
@@ -139,10 +140,16 @@ def handleProcess (args : List String) : Verdict :=
 
 def handleXml (args : List String) : Verdict :=
   match args with
-  | mflag :: rest =>
+  | mflag :: "F" :: hfile :: rest =>
     (do
       let (t, r1) ← parseTree rest
       if r1.head? != some "|" then none else
+      let written ← hstr hfile
+      -- the writer model (PrintNodeXML + the GENERATED escape tables) must produce the very characters the code wrote
+      let modelText := String.ofList (Votca.C11X.printXML Votca.Gen.XmlEscape.textTable Votca.Gen.XmlEscape.attrTable [] t)
+      if modelText != written then
+        pure ({ agree := false, propOk := true, msg := "writer model differs from the written text: model " ++ (modelText.replace "\n" "\\n").take 160 ++ " / code " ++ (written.replace "\n" "\\n").take 160,
+                tag := "xml:writer-text" } : Verdict) else
       match r1.tail with
       | "OK" :: n :: r2 =>
         if n != "1" then pure ({ agree := true, propOk := false, msg := s!"{n} top-level elements after reload", tag := "xml:reloaded-differently" } : Verdict) else
